@@ -12,6 +12,7 @@ import MosnVerif.Lemmas.Reencode
 import MosnVerif.Model.ReencodeSpec
 import MosnVerif.Lemmas.EncodeState
 import MosnVerif.Lemmas.H2Fwd
+import MosnVerif.Lemmas.H2Spec
 /-!
 # C01 — forwarding fidelity (property theorems only)
 
@@ -1063,6 +1064,32 @@ example : pseudoGet (x12Req ⟨fun p => some p, id, fun _ r => r, id, fun p => s
 example : (x12Req ⟨fun p => some p, id, fun _ r => r, id, fun p => some p, fun _ po _ => po⟩ [] []
       { pseudo := [(nMethod, [80, 79, 83, 84]), (nPath, [47])], fields := [(nHost, [72])],
         chunks := [[1]], trailers := some [([120], [49])], endOnHeaders := false }).trailers = none := by decide
+
+/-- **the model satisfies the reference predicate** evaluated on the implementation's output (`specReqH2`, HTTP/2 → HTTP/2
+request).  PARTIAL: the full statement is `specReqH2 w (fwdReqH2 O remote win w) = true`, i.e. additionally the clause `clOK`
+(a content-length at the receiver, when present, is the decimal length of the body); the model writes `natBytes n` there and
+`parseNat? (natBytes n) = some n` (Nat.repr round trip) is not proved — the clause is checked on every case line instead.
+Hypotheses: an authority, a path net/url prints back unchanged, field names outside the encoder's special ones
+(`PlainNames`: own, connection-specific, user-agent, trailer announcement — cookie crumbs, repeated names, empty values, any
+case allowed), END_STREAM on HEADERS only without DATA and trailers. -/
+theorem h2_spec_holds_on_model_partial (O : Oracles) (remote : H2Msg.Bytes) (win : List Nat) (w : Wire)
+    (hesc : O.escaped (splitTarget (pseudoGet w.pseudo nPath)).1 = some (splitTarget (pseudoGet w.pseudo nPath)).1)
+    (hauth : pseudoGet w.pseudo nAuthority ≠ [])
+    (hp : MosnVerif.Lemmas.H2Spec.PlainNames w.fields)
+    (hend : w.endOnHeaders = true → w.chunks = [] ∧ w.trailers = none) :
+    specReqH2core w (fwdReqH2 O remote win w) = true :=
+  MosnVerif.Lemmas.H2Spec.spec_holds_on_model O remote win w hesc hauth hp hend
+
+/-- the hypotheses hold of a request with cookie crumbs, a repeated mixed-case field, a body in three DATA frames and
+trailers, and the full predicate (content-length clause included) holds of the model's output for it -/
+example : specReqH2
+    { pseudo := [(nMethod, [80, 79, 83, 84]), (nPath, [47, 97, 63, 120]), (nAuthority, [97]), (nScheme, sHTTP)],
+      fields := [(nCookie, [97, 61, 49]), ([120, 45, 100], [49]), (nCookie, [98, 61, 50]), ([88, 45, 68], [])],
+      chunks := [[1], [], [2, 3]], trailers := some [([120, 45, 116], [49])], endOnHeaders := false }
+    (fwdReqH2 ⟨fun p => some p, id, fun _ r => r, id, fun _ => none, fun _ po _ => po⟩ [] [2]
+      { pseudo := [(nMethod, [80, 79, 83, 84]), (nPath, [47, 97, 63, 120]), (nAuthority, [97]), (nScheme, sHTTP)],
+        fields := [(nCookie, [97, 61, 49]), ([120, 45, 100], [49]), (nCookie, [98, 61, 50]), ([88, 45, 68], [])],
+        chunks := [[1], [], [2, 3]], trailers := some [([120, 45, 116], [49])], endOnHeaders := false }) = true := by decide
 
 end H2
 
